@@ -108,3 +108,115 @@ pub fn encode_str(a: &[&str]) -> String {
         Err(e) => format!("err {} {}", enc_err(&e), show_trace(&st)),
     }
 }
+
+fn show_decoding(r: Result<Vec<u8>, datamatrix::DecodingError>) -> String {
+    use datamatrix::DecodingError::*;
+    match r {
+        Ok(v) => format!("ok:{}", show(&v)),
+        Err(PixelConversion(_)) => "err:PixelConversion".to_string(),
+        Err(ErrorCorrection(_)) => "err:ErrorCorrection".to_string(),
+        Err(DataDecoding(e)) => format!("err:{}", crate::dec::dec_err(&e)),
+    }
+}
+
+/// rt <data> <wl> <modes> <macros> <fnc1> <eci>: encode, then decode the data codewords and the rendered symbol
+pub fn rt(a: &[&str]) -> String {
+    let d = bytes(a[0]);
+    let l = list_of(a[1]);
+    let m = modes_of(int(a[2]));
+    let eci = if a[5] == "N" { None } else { Some(int(a[5]) as u32) };
+    let r = datamatrix::DataMatrixBuilder::new()
+        .with_symbol_list(l)
+        .with_encodation_types(m)
+        .with_macros(a[3] == "1")
+        .with_fnc1_start(a[4] == "1")
+        .encode_eci(&d, eci);
+    let st = verif::planner_stats();
+    match r {
+        Ok(dm) => {
+            let d1 = match data::decode_data(dm.data_codewords()) {
+                Ok(v) => format!("ok:{}", show(&v)),
+                Err(e) => format!("err:{}", crate::dec::dec_err(&e)),
+            };
+            let bm = dm.bitmap();
+            let d2 = show_decoding(datamatrix::DataMatrix::decode(bm.bits(), bm.width()));
+            format!("ok {} {} {} {} {}", sym_index(dm.size), show(dm.data_codewords()), d1, d2, show_trace(&st))
+        }
+        Err(e) => format!("err {} {}", enc_err(&e), show_trace(&st)),
+    }
+}
+
+/// dm_decode <width> <pixels>
+pub fn dm_decode(a: &[&str]) -> String {
+    show_decoding(datamatrix::DataMatrix::decode(&crate::place::bools(a[1]), int(a[0])))
+}
+
+/// dm_decode_flips <symbol> <codewords> <pixel indices to flip>: render, flip, decode
+pub fn dm_decode_flips(a: &[&str]) -> String {
+    let s = sym(int(a[0]));
+    let cw = bytes(a[1]);
+    let bm = datamatrix::placement::MatrixMap::new_with_codewords(&cw, s).bitmap();
+    let mut bits = bm.bits().to_vec();
+    for k in ints(a[2]) {
+        if k < bits.len() {
+            bits[k] = !bits[k];
+        }
+    }
+    show_decoding(datamatrix::DataMatrix::decode(&bits, bm.width()))
+}
+
+/// plan_enc <data> <wl> <modes>: data::encodation_plan, then data::encode_data with the same arguments
+pub fn plan_enc(a: &[&str]) -> String {
+    let d = bytes(a[0]);
+    let l = list_of(a[1]);
+    let m = modes_of(int(a[2]));
+    let p = data::encodation_plan(&d, &l, m);
+    let r = data::encode_data(&d, &l, None, m, false);
+    let st = verif::planner_stats();
+    let enc = match r {
+        Ok((cw, size)) => format!("ok {} {}", sym_index(size), show(&cw)),
+        Err(e) => format!("err {} -", enc_err(&e)),
+    };
+    format!("{} {} {} {}", show_plan(&p), enc, show_stats(&st), show_trace(&st))
+}
+
+/// str_rt <scalars> <wl>: encode_str, then decode_str of the data codewords
+pub fn str_rt(a: &[&str]) -> String {
+    let s = match crate::dec::string_of(a[0]) {
+        Some(s) => s,
+        None => return "not-a-string".to_string(),
+    };
+    let r = datamatrix::DataMatrix::encode_str(&s, list_of(a[1]));
+    let st = verif::planner_stats();
+    match r {
+        Ok(dm) => {
+            let back = match data::decode_str(dm.data_codewords()) {
+                Ok(v) => format!("ok:{}", crate::dec::scalars(&v)),
+                Err(e) => format!("err:{}", crate::dec::dec_err(&e)),
+            };
+            format!("ok {} {} {} {}", sym_index(dm.size), show(dm.data_codewords()), back, show_trace(&st))
+        }
+        Err(e) => format!("err {} {}", enc_err(&e), show_trace(&st)),
+    }
+}
+
+/// dm_flip_codewords <symbol> <codewords> <codeword indices>: render the symbol, flip one module of
+/// each listed codeword (found by comparing with the rendering of the codeword xor 0x80..0x01), decode;
+/// prints "same" if the decoding result equals that of the undamaged symbol
+pub fn dm_flip_codewords(a: &[&str]) -> String {
+    let s = sym(int(a[0]));
+    let cw = bytes(a[1]);
+    let clean = datamatrix::placement::MatrixMap::new_with_codewords(&cw, s).bitmap();
+    let reference = show_decoding(datamatrix::DataMatrix::decode(clean.bits(), clean.width()));
+    let mut damaged_cw = cw.clone();
+    for (n, k) in ints(a[2]).into_iter().enumerate() {
+        damaged_cw[k] ^= 1 << (n % 8);
+    }
+    let damaged = datamatrix::placement::MatrixMap::new_with_codewords(&damaged_cw, s).bitmap();
+    let r = show_decoding(datamatrix::DataMatrix::decode(damaged.bits(), damaged.width()));
+    if r == reference {
+        format!("same {}", r)
+    } else {
+        format!("differs {} {}", r, reference)
+    }
+}
